@@ -134,4 +134,52 @@ theorem rigid_out (Q h : ℝ) (s : ℝ × ℝ × ℝ) :
   obtain ⟨u, v, x⟩ := s
   simp [SType.out, Osc.ofQ]
 
+/-! ### the whole 0 Hz column -/
+
+theorem map_sub_zero' (l : List ℝ) : l.map (· - (0 : ℝ)) = l := by
+  conv_rhs => rw [← List.map_id l]
+  apply List.map_congr_left
+  intro a _
+  simp
+
+theorem srsCol_zero_hz' (o : Opts) (hic : o.ic ≠ .steady) (Q sr : ℝ) (hsr : sr ≠ 0)
+    (freqs sig : List ℝ) : srsCol o Q sr freqs 0 sig = exactCol0 o Q sr freqs sig := by
+  cases sig with
+  | nil => rfl
+  | cons s1 rest =>
+    have hh : (1 : ℝ) / sr ≠ 0 := one_div_ne_zero hsr
+    obtain ⟨st, ic, pk, tm, es⟩ := o
+    simp only at hic
+    simp only [srsCol, srsTail, exactCol0, mul_zero]
+    have key : ∀ nz : ℕ,
+        addBack st 0 (processIc ic st s1 (s1 :: rest)).2
+          (lfilter (st.coef Q (1 / sr) 0)
+            ((processIc ic st s1 (s1 :: rest)).1 ++ List.replicate nz (if ic = .steady then 0 - s1 else 0)))
+        = (rigidStatesAux (1 / sr) 0 0 0
+              ((s1 :: rest).map (· - icShift ic s1 (s1 :: rest)) ++ List.replicate nz 0)).map
+            (st.out (Osc.ofQ Q (1 / sr) 0)) := by
+      intro nz
+      cases ic
+      · simp only [processIc, addBack, icShift, map_sub_zero', reduceCtorEq, if_false]
+        rw [lfilter_rigid_eq st Q _ hh]
+        rfl
+      · simp only [processIc, addBack, icShift, reduceCtorEq, if_false]
+        rw [lfilter_rigid_eq st Q _ hh]
+        rfl
+      · simp only [processIc, addBack, icShift, reduceCtorEq, if_false]
+        rw [lfilter_rigid_eq st Q _ hh]
+        rfl
+      · exact absurd rfl hic
+    have hlen : (processIc ic st s1 (s1 :: rest)).1.length = (s1 :: rest).length := by
+      cases ic <;> simp [processIc]
+    cases tm
+    · have k0 := key 0
+      simp only [List.replicate_zero, List.append_nil] at k0
+      simp only [reduceCtorEq, if_false, if_true, List.replicate_zero, List.append_nil, k0]
+      rfl
+    · simp only [reduceCtorEq, if_false, if_true, addOneCycle, key]
+      rfl
+    · simp only [reduceCtorEq, if_false, if_true, addOneCycle, key, hlen]
+      rfl
+
 end PyYetiVerif.Srs
